@@ -1,18 +1,175 @@
-"""C12 - device errors reach the plan at the message that caused them."""
+"""C12 - device errors reach the plan at the message that caused them.
+
+Two case families: the engine family (model Engine/RE.v, schedule replay) and - `"fam": "waitgroup"` - the
+status-group / wait(timeout=, error_on_timeout=, watch=) family (model Engine/WaitGroup.v, driver
+harness/drivers/wait_driver.py: plain RE(plan) on a virtual-time loop, fake statuses completed at scripted points,
+the real order of completions / timer / task wake-ups recorded as the model's event list)."""
 from harness.props.engine_common import *  # noqa: F401,F403  (impl_batch/nontrivial/describe/... shared by the engine family)
 from harness.props import engine_common as ec
 from harness.props import resp_trace as rt
 from harness.drivers import engine_encode, engine_cases_resp
+from harness.drivers import wait_cases as wc
 
 ID = "C12"
 PROP_FILE = "Props/C12.v"
 THEOREMS = ["C12_errors_thrown_at_yield", "C12_exception_response_thrown", "C12_failed_status_prompt",
-            "C12_failed_status_thrown", "C12_unhandled_exception_raised"]
-COQ_IMPORTS = "From BV Require Import Engine.RE Engine.REInst Engine.RespMon.\nFrom Coq Require Import ZArith."
+            "C12_failed_status_thrown", "C12_unhandled_exception_raised",
+            "C12_wait_failures_reach_plan", "C12_wait_true_only_when_complete_partial",
+            "C12_wait_true_only_when_complete", "C12_wait_result", "C12_wait_fail_while_pending", "C12_wait_frame",
+            "C12_wait_strict_refuted_a", "C12_wait_strict_refuted_b"]
+COQ_IMPORTS = ("From BV Require Import Engine.RE Engine.REInst Engine.RespMon.\nFrom Coq Require Import ZArith.\n"
+               "From BV Require Engine.WaitGroup Engine.WaitGroupSpec.")
+MODELLED = ec.MODELLED + (
+    "  Status groups and wait(timeout=, error_on_timeout=, watch=): `_add_status_to_group`, `_status_object_completed`, "
+    "`_wait`, `_wait_for` and the `_exception` slot at the top of the `_run` loop are modelled by hand in Engine/WaitGroup.v "
+    "(one call, one plan, statuses in three stages: pending / object done / completion delivered to the loop; the two "
+    "asyncio tasks of `_wait` as release / wake / resume / cancel-callback events); asyncio.wait itself, the waiting_hook "
+    "and real threads are not modelled (the thread hop of a completion is the gap between the `finish` and `done` events).")
+RULE = ec.RULE + (
+    "  waitgroup family: ~50 written scenarios (a member failing while another is pending, timeouts with both values of "
+    "error_on_timeout, object done before its completion is delivered, watch groups failing/succeeding/unknown/stale, "
+    "empty and unknown groups, completions before/after the wait starts, failures never waited for; also with a plan that "
+    "re-raises), a sample of the 19200-case small scope (2 statuses x 1 wait with every option x every placing, outcome "
+    "and stage of the two completions), seeded random plans (3-10 messages over up to 3 groups, completions in the plan and "
+    "while waits block) and a malformed stream (unknown status numbers, repeated completions).")
+
+
+def is_wait(case):
+    return case.get("fam") == "waitgroup"
+
+
+def impl_batch(all_cases):
+    from harness.drivers import wait_driver
+    idx_w = [i for i, c in enumerate(all_cases) if is_wait(c)]
+    idx_e = [i for i, c in enumerate(all_cases) if not is_wait(c)]
+    out = [None] * len(all_cases)
+    if idx_e:
+        for i, o in zip(idx_e, ec.impl_batch([all_cases[i] for i in idx_e])):
+            out[i] = o
+    for i in idx_w:
+        o = wait_driver.run_case(all_cases[i])
+        if o.get("errors"):                      # a lost race with the machine's load is retried once
+            o = wait_driver.run_case(all_cases[i])
+        out[i] = o
+    return out
+
+
+def describe(case):
+    if is_wait(case):
+        w = [st["msg"] for st in case["plan"] if st["msg"][0] == "wait"]
+        tag = "wait"
+        if any(m[4] for m in w):
+            tag += "+watch"
+        if any(m[2] for m in w):
+            tag += "+timeout"
+        if any(not m[3] for m in w):
+            tag += "+noerr"
+        return tag
+    return ec.describe(case)
+
+
+def nontrivial(case, obs):
+    if is_wait(case):
+        return any(e[0] == "done" for e in obs.get("events", []))
+    return ec.nontrivial(case, obs)
+
+
+# ----------------------------------------------------------------------------- waitgroup family: the property on the real run
+
+def wait_walk(obs):
+    """Replays the recorded events next to the inputs the plan received; returns (problems, strict, cancelled):
+    problems - departures from the property (list of str); strict - the waits that answered True although a status
+    of their group had not completed (list of (group, error_on_timeout)); cancelled - a wait was cancelled by its
+    watch task."""
+    ev = obs["events"]
+    ins = list(obs["inputs"])
+    bad, strict = [], []
+    fin, comp, prev = {}, [], set()
+    fin_res = {}        # how the status objects stood when `_wait` resumed (what `all(obj.done ...)` read)
+    pend = None
+    grp = {}            # status -> group
+    n = 0
+    last = None
+    cancelled = False
+    fired = False
+    k = 0
+    for e in ev:
+        if e[0] in ("msg", "end"):
+            if k >= len(ins):
+                bad.append("a message without a recorded input")
+                break
+            i = ins[k]
+            k += 1
+            if pend is not None:
+                if i != ["throw", "failed", pend]:
+                    bad.append("status %d failed but the next yield received %r" % (pend, i))
+                elif pend in prev:
+                    bad.append("FailedStatus of status %d thrown after an earlier yield had passed" % pend)
+            elif i[0] == "throw" and i[1] == "failed":
+                bad.append("FailedStatus %r thrown although no failure was recorded since the previous yield" % (i,))
+            if last is not None and last[0] == "wait":
+                g, tmo, eot = last[1], last[2], last[3]
+                mem = [s for s, gg in grp.items() if gg == g]
+                if i == ["val", True]:
+                    if any(s not in comp for s in mem):
+                        strict.append((g, eot))
+                    if not cancelled and (eot or not all(s in fin_res for s in mem)) and any(s not in comp for s in mem):
+                        bad.append("wait on group %d answered True although a status of the group has not completed" % g)
+                if fired and pend is None and eot and i != ["throw", "timeout", -1]:
+                    bad.append("the timeout fired during a wait with error_on_timeout but the yield received %r" % (i,))
+                if fired and pend is None and not eot and i[0] != "val":
+                    bad.append("the timeout fired during a wait without error_on_timeout but the yield received %r" % (i,))
+                if i == ["val", False] and (eot or all(s in fin_res for s in mem)):
+                    bad.append("wait answered False although error_on_timeout / every status object is done")
+            prev = set(comp)
+            pend = None
+            fired = False
+            if e[0] == "end":
+                last = None
+            else:
+                last = e[1]
+                if last[0] == "add":
+                    grp[n] = last[1]
+                    n += 1
+        elif e[0] == "finish":
+            fin[e[1]] = e[2]
+        elif e[0] == "done":
+            comp.append(e[1])
+            if fin.get(e[1]) is False:
+                pend = e[1]
+        elif e[0] == "cancel":
+            cancelled = True
+        elif e[0] == "resume":
+            fin_res = dict(fin)
+        elif e[0] == "timeout":
+            fired = True
+    # what must not change: a group that was never waited for holds exactly the statuses added to it
+    waited = {m[1][1] for m in ev if m[0] == "msg" and m[1][0] == "wait"}
+    for g in set(grp.values()) - waited:
+        want = sorted(s for s, gg in grp.items() if gg == g)
+        if (obs.get("groups") or {}).get(str(g), []) != want:
+            bad.append("group %d was never waited for but holds %r instead of %r" % (g, (obs.get("groups") or {}).get(str(g)), want))
+    # an exception the plan does not handle ends the call with that exception
+    thrown = [i for i in ins if i[0] == "throw"]
+    if obs.get("outcome", ["return"])[0] == "raise":
+        if not thrown or obs["outcome"][1:] != thrown[-1][1:]:
+            bad.append("the call raised %r, the plan was last thrown %r" % (obs["outcome"], thrown[-1:] or None))
+    return bad, strict, cancelled
+
+
+def wait_finding(obs):
+    bad, strict, cancelled = wait_walk(obs)
+    if not strict:
+        return None
+    if cancelled:
+        return "b"
+    if all(not eot for _, eot in strict):
+        return "a"
+    return None
 
 
 def cases(rng, tier):
-    return ec.gen_cases(rng, tier) + engine_cases_resp.gen(rng, tier)
+    return ec.gen_cases(rng, tier) + engine_cases_resp.gen(rng, tier) + wc.gen(rng, tier)
 
 
 def problems(obs):
@@ -27,6 +184,19 @@ def problems(obs):
 def oracle(case, obs):
     if obs.get("errors"):
         return "driver: " + str(obs["errors"][0])[:200]
+    if is_wait(case):
+        bad, strict, cancelled = wait_walk(obs)
+        thrown = [i for i in obs["inputs"] if i[0] == "throw"]
+        # (CancelledError is the engine's own abort signal: a plan that lets it through ends the call quietly with
+        # exit_status 'abort'; a wait cancelled by its watch task with nothing in the slot throws it - recorded in
+        # the manifest as behaviour outside the statement, which speaks of device errors and failed statuses)
+        if case.get("stop_on_throw") and thrown and thrown[-1][1] != "cancelled" and obs["outcome"][0] != "raise":
+            bad.append("the plan re-raised what it was thrown but the call returned")
+        if strict and not bad:
+            g, eot = strict[0]
+            bad.append("wait on group %d answered True although a status of the group has not completed "
+                       "(%s)" % (g, "after a wait cancelled by its watch task" if cancelled else "error_on_timeout=False"))
+        return "; ".join(bad[:3])[:600] if bad else None
     bad = problems(obs)
     if bad:
         return "; ".join(m for _, m in bad[:3])[:600]
@@ -34,7 +204,10 @@ def oracle(case, obs):
 
 
 def finding(case, obs):
-    return None       # no recorded deviation: every departure is a violation
+    if is_wait(case):
+        bad, strict, cancelled = wait_walk(obs)
+        return None if bad else wait_finding(obs)     # only the strict reading of 'True' may fail, only in a class
+    return None       # engine family: no recorded deviation, every departure is a violation
 
 
 def coq_term(case, obs):
@@ -42,6 +215,8 @@ def coq_term(case, obs):
     implementation-side monitors run on the real trace (response discipline of every call's plan; status promptness)"""
     if obs.get("errors") or case.get("no_model"):
         return None
+    if is_wait(case):
+        return wait_term(case, obs)
     try:
         e = engine_encode.Enc(case, obs).encode()
     except engine_encode.Unsupported:
@@ -58,3 +233,28 @@ def coq_term(case, obs):
             "andb (check tp ld %s %s %s ev %s) (%s)"
             % (e["tapes"], e["ledger"], e["evs"], e["paus"], e["stag"], e["rec"],
                e["paus"], e["stag"], e["rec"], e["obs"], conj))
+
+
+def wait_term(case, obs):
+    """the model run on the recorded events gives the recorded inputs, no impossible event, the same groups and slot;
+    both monitors accept the model's trace (as proved); the Coq finding classes agree with the Python mirror"""
+    ng = wc.ngroups(case)
+    gs = [(obs.get("groups") or {}).get(str(g), []) for g in range(ng)]
+    sl = "None" if obs["slot"] is None else "Some (WaitGroup.%s)" % wc.enc_exn(*obs["slot"])
+    evs = wc.enc_evs(obs)
+    ins = wc.cl([wc.enc_input(i) for i in obs["inputs"]])
+    fid = wait_finding(obs)
+    _, strict, cancelled = wait_walk(obs)
+    q = lambda t: _qualify(t)
+    return ("let evs := %s in let tr := snd (WaitGroup.run_tr WaitGroup.init evs) in "
+            "andb (WaitGroup.agrees evs %s %d %s (%s)) (andb (WaitGroupSpec.mon_fail tr) (andb (WaitGroupSpec.mon_wait false tr) "
+            "(andb (Bool.eqb (WaitGroupSpec.finding_F2 tr) %s) (andb (Bool.eqb (negb (WaitGroupSpec.mon_wait true tr)) %s) "
+            "(Bool.eqb (WaitGroupSpec.finding_F1 tr) %s)))))"
+            % (q(evs), q(ins), ng, wc.cl([wc.cnl(g) for g in gs]), sl, wc.cb(cancelled), wc.cb(bool(strict)),
+               wc.cb(fid == "a")))
+
+
+def _qualify(t):
+    import re
+    return re.sub(r"\b(EMsg|EEnd|EFinish|EDone|ETimeout|EWakeS|EResume|EWakeW|ECancelCb|MAdd|MWait|MOther|IVal|IThrow|VNone|VBool|XFailed|XTimeout|XCancelled)\b",
+                  lambda m: "WaitGroup." + m.group(1), t)
